@@ -291,19 +291,27 @@ func (g *Generator) generateRepeatedInt64FieldUnmarshal(
 	gf.P("// Convert repeated ", jsonName, " from numbers to strings for protojson")
 	gf.P(`if rawVal, ok := raw["`, jsonName, `"]; ok {`)
 	if isUnsigned {
-		gf.P("var nums []uint64")
+		gf.P("var nums []*uint64")
 		gf.P("if err := json.Unmarshal(rawVal, &nums); err == nil {")
-		gf.P("strs := make([]string, len(nums))")
+		gf.P("// a null element stays null: protojson rejects it, as it does for every other list")
+		gf.P("strs := make([]*string, len(nums))")
 		gf.P("for i, n := range nums {")
-		gf.P("strs[i] = strconv.FormatUint(n, 10)")
+		gf.P("if n != nil {")
+		gf.P("s := strconv.FormatUint(*n, 10)")
+		gf.P("strs[i] = &s")
+		gf.P("}")
 		gf.P("}")
 		gf.P(`raw["`, jsonName, `"], _ = json.Marshal(strs)`)
 	} else {
-		gf.P("var nums []int64")
+		gf.P("var nums []*int64")
 		gf.P("if err := json.Unmarshal(rawVal, &nums); err == nil {")
-		gf.P("strs := make([]string, len(nums))")
+		gf.P("// a null element stays null: protojson rejects it, as it does for every other list")
+		gf.P("strs := make([]*string, len(nums))")
 		gf.P("for i, n := range nums {")
-		gf.P("strs[i] = strconv.FormatInt(n, 10)")
+		gf.P("if n != nil {")
+		gf.P("s := strconv.FormatInt(*n, 10)")
+		gf.P("strs[i] = &s")
+		gf.P("}")
 		gf.P("}")
 		gf.P(`raw["`, jsonName, `"], _ = json.Marshal(strs)`)
 	}
